@@ -37,7 +37,7 @@ class getitem:
     """C07: v[i] is the i-th element, v[slice] equals list slicing for every start/stop/step,
     v[mask] keeps exactly the True positions in order; dtype kind and name kept."""
     c03 = True
-    params = {'self': 'vector', 'key': 'alt:int|slice|boolvec|list_bool'}
+    params = {'self': 'vector', 'key': 'alt:int|bool|slice|boolvec|list_bool'}
 
     def requires(self, key):
         return S.truthful(self) and (isinstance(key, (int, slice)) or is_bool_mask(key))
@@ -325,12 +325,25 @@ from pyvc.contract import loop_invariant  # noqa: E402
 
 @contract('serif.vector.Vector._hash_element', props=['C16'])
 class hash_element:
-    """Trusted: a deterministic function of the element (hash() within one process)."""
+    """Assumed at call sites: a deterministic function of the element."""
     params = {'x': 'any'}
     trusted = True
 
     def returns(x):
         return S.hash_elem(x)
+
+
+@contract('serif.vector.Vector._hash_element', props=['C16'], variant='scalars')
+class hash_element_scalars:
+    """C16 ("a write to an unequal value that Python's own hash() can tell apart changes the
+    fingerprint"): for str / int / bool elements the element hash IS Python's hash(), so no two
+    values that hash() separates are merged before the rolling hash; None has a fixed code."""
+    params = {'x': 'alt:str|int|bool|none'}
+
+    def returns(x):
+        if x is None:
+            return 0x9E3779B97F4A7C15
+        return hash(x)
 
 
 @loop_invariant('serif.vector.Vector._compute_fingerprint_full', 0, havoc={'total': 'int', 'h': 'int'})
@@ -654,3 +667,21 @@ class invert:
             return (tuple(result._underlying) == tuple(None if x is None else (not x) for x in self._underlying)
                     and result._dtype == self._dtype and result._name == self._name)
         return S.same_view(result, S.unary_spec(self, operator.invert))
+
+
+# ------------------------------------------------------------------ C05 / C18 dates + days
+from datetime import date as _date  # noqa: E402
+
+
+@contract('serif.vector._Date.__add__', props=['C05', 'C06', 'C18'], variant='days')
+class date_add_days:
+    """C05: dates + days is elementwise `date.fromordinal(d.toordinal() + n)`, None staying None;
+    C18: the result of vector arithmetic is unnamed."""
+    params = {'self': 'vector', 'other': 'alt:int|intvec'}
+    raises = [(ValueError, lambda self, other: isinstance(other, Vector) and len(other._underlying) != len(self._underlying), True)]
+
+    def returns(self, other):
+        if isinstance(other, Vector):
+            return vec_inferred([None if (s is None or y is None) else _date.fromordinal(s.toordinal() + y)
+                                 for s, y in zip(self._underlying, other._underlying)], None, False)
+        return vec_inferred([None if s is None else _date.fromordinal(s.toordinal() + other) for s in self._underlying], None, False)
